@@ -14,10 +14,13 @@ package main
 //                  there (what a second daemon does at start-up); either way its Shm.IsNew is false. The second process is killed when
 //                  it has not answered within VERIF_C04_PROC2_DEADLINE_MS (default 2500, a quarter of it after six such kills): status 2, and the history is abandoned
 //                  after this step's observation (the line ends there).
+//     24 n (slot id)*  write a .PASSWDS of n records, all with the empty id except the listed slots (sparse form of 20, for the large tables of the docker build)
 //     30 ids...    set the lookup battery    31 h...   set the buckets whose chains are printed
+//     32 slot...   print the ids of these slots only instead of all MAX_USERS (the docker build has 2 000 000); "32" alone goes back to all
 // Every op prints  <status> <code> [13 bytes for 13/14/15 | n uids for 25]  followed by the observation
-//   Number Loaded <#heads != -1> nb (h k slot*k end)*nb  <MAX_USERS*13 id bytes>  nl uid*nl
+//   Number Loaded <#heads != -1> nb (h k slot*k end)*nb  <MAX_USERS*13 id bytes, or 13 bytes per watched slot after op 32>  nl uid*nl
 // where the chains are walked in the attached memory (end: -1 proper, -2 link out of range, -3 longer than MAX_USERS).
+//   11|op|op|...   the same as 1 for the production configuration: the -tags docker build runs it itself, the default build passes it to build/implrun_docker
 //   2|id   cmsys.StringHashWithHashBits      3   constants of the compiled program
 //   4      1 when this (the first) process created the segment (cache.Shm.IsNew), else 0
 // implrun C04ATTACH is the second process: it attaches to the key in VERIF_C04_KEY and answers "1|ids..." with the uids.
@@ -49,6 +52,7 @@ import (
 type c04State struct {
 	battery []*ptttype.UserID_t
 	buckets []int64
+	slots   []int64 // nil: every slot is printed
 }
 
 func c04ID(toks []string) *ptttype.UserID_t {
@@ -127,8 +131,14 @@ func c04Observe(st *c04State) []string {
 		out = append(out, slots...)
 		out = append(out, oi(end))
 	}
-	for i := 0; i < maxu; i++ {
-		out = append(out, ob(shm.Userid[i][:])...)
+	if st.slots == nil {
+		for i := 0; i < maxu; i++ {
+			out = append(out, ob(shm.Userid[i][:])...)
+		}
+	} else {
+		for _, i := range st.slots {
+			out = append(out, ob(shm.Userid[i][:])...)
+		}
 	}
 	out = append(out, oi(int64(len(st.battery))))
 	for _, q := range st.battery {
@@ -145,6 +155,27 @@ func c04Search(q *ptttype.UserID_t) (res string) {
 	}()
 	uid, _ := cache.SearchUserRaw(q, nil)
 	return oi(int64(uid))
+}
+
+// op 24: n records, the empty id everywhere except at the listed slots
+func c04WritePasswdSparse(toks []string) {
+	n := int(ai(toks[0]))
+	w := 1 + int(ptttype.USER_ID_SZ)
+	if n < 0 || n > int(ptttype.MAX_USERS)+8 || (len(toks)-1)%w != 0 {
+		panic("badcase:sparse")
+	}
+	sz := int(ptttype.USEREC_RAW_SZ)
+	off := int(unsafe.Offsetof(ptttype.USEREC_RAW.UserID))
+	buf := make([]byte, sz*n)
+	for i := 1; i < len(toks); i += w {
+		slot := int(ai(toks[i]))
+		if slot < 0 || slot >= n {
+			panic("badcase:sparse slot")
+		}
+		id := c04ID(toks[i+1 : i+w])
+		copy(buf[slot*sz+off:], id[:])
+	}
+	must(os.WriteFile(ptttype.FN_PASSWD, buf, 0o600))
 }
 
 func c04WritePasswd(ids []*ptttype.UserID_t) {
@@ -269,6 +300,12 @@ func c04Step(st *c04State, g []string) (res []string) {
 		return []string{"0", "0"}
 	case 21:
 		return c04Err(cache.LoadUHash())
+	case 24:
+		if len(g) < 2 {
+			panic("badcase:sparse")
+		}
+		c04WritePasswdSparse(g[1:])
+		return []string{"0", "0"}
 	case 22:
 		cache.Shm.Reset()
 		return []string{"0", "0"}
@@ -322,8 +359,49 @@ func c04Step(st *c04State, g []string) (res []string) {
 			st.buckets = append(st.buckets, h)
 		}
 		return []string{"0", "0"}
+	case 32:
+		if len(g) == 1 {
+			st.slots = nil
+			return []string{"0", "0"}
+		}
+		st.slots = []int64{}
+		for _, t := range g[1:] {
+			i := ai(t)
+			if i < 0 || i >= int64(ptttype.MAX_USERS) {
+				panic("badcase:slot")
+			}
+			st.slots = append(st.slots, i)
+		}
+		return []string{"0", "0"}
 	}
 	panic("badcase:op")
+}
+
+// case 11 on the default build: "11|op|op.." is a history for the production configuration (-tags docker: MAX_USERS 2 000 000). The driver built with
+// those tags (implrun_docker next to this executable; checks/C04.py builds both) runs it and its answer is passed on, so that a replay file of such a
+// history can be given to either driver.
+func c04Relay(args [][]string) []string {
+	groups := []string{}
+	for _, g := range args {
+		groups = append(groups, strings.Join(g, " "))
+	}
+	exe := filepath.Join(filepath.Dir(os.Args[0]), "implrun_docker")
+	if _, err := os.Stat(exe); err != nil {
+		return []string{"9"}
+	}
+	cmd := exec.Command(exe, "C04", "-deadline", "120000")
+	cmd.Stdin = strings.NewReader(strings.Join(groups, "|") + "\n")
+	var so, se bytes.Buffer
+	cmd.Stdout, cmd.Stderr = &so, &se
+	err := cmd.Run()
+	out := strings.Fields(so.String())
+	if len(out) == 0 {
+		if os.Getenv("VERIF_SHOW_PANIC") != "" {
+			fmt.Fprintln(os.Stderr, "relay:", err, se.String())
+		}
+		return []string{"9"}
+	}
+	return out
 }
 
 // newBBSEnv (bbsenv.go) without its cache.LoadUHash(): the set-up runs outside the driver's deadline, and the first load of the
@@ -362,7 +440,14 @@ func init() {
 		setup:    func() { env = c04NewEnv("ptt") },
 		teardown: func() { env.close() },
 		run: func(args [][]string) []string {
-			switch ai(args[0][0]) {
+			top := ai(args[0][0])
+			if top == 11 && int64(ptttype.MAX_USERS) < 100000 {
+				return c04Relay(args) // a history of the production configuration given to the default build: the sibling driver built with -tags docker runs it
+			}
+			if top == 11 {
+				top = 1
+			}
+			switch top {
 			case 1:
 				cache.Shm.Reset()
 				c04WritePasswd(nil)
